@@ -33,6 +33,18 @@ check("C19", "model_checking",
       "state-based (remove deletes only the named path). Trusted: the 20-line set model.",
       "explicit-state BFS on the implementation vs reference model", "DESIGN.md §2 C19")
 
+check("C16", "model_checking",
+      "Explicit-state BFS over the real DataModel: all histories of mutations (modify_element/row/column, append, "
+      "remove_rows, rename_column, slice, reset_index, clone, DataModel(other)) and queries (which build the row "
+      "cache and the equality indexes) up to depth 3 (thorough 4) from 3 (4) initial tables, then every query in "
+      "every reached state; each transition runs on a real DataModel rebuilt by replay and is compared with a "
+      "list-of-dicts model (frame content after every mutation, every query result against a scan). "
+      "GIRBlockViewer: every well-nested layout with <=5 (7) rows, every read_block descent chain, every query, "
+      "append_other with every layout <=3 rows, against a scan of the row list.",
+      "Arguments always valid for the current table; NaN/None are one missing value; tables with a live alias "
+      "(DataModel(other) while the other is still mutated) are out of scope; fillna/set_columns/Row writes not generated.",
+      "explicit-state BFS on the implementation vs reference model", "DESIGN.md §2 C16")
+
 ALL = [f"C{n:02d}" for n in range(1, 21)]
 
 
